@@ -194,7 +194,7 @@ def cases(tier, seed):
 def run_cli(lines_nl, files):
     """in-process assembler.py <file> --to_bin --to_cas --to_dsk in a private directory -> (exit status, new files, stdout)"""
     import assembler
-    td = tempfile.mkdtemp(prefix="c13_")
+    td = common.mkdtemp(prefix="c13_")
     cwd = os.getcwd()
     try:
         os.chdir(td)
@@ -246,7 +246,7 @@ def check_case(case):
     cwd = os.getcwd()
     try:
         if files is not None:
-            td = tempfile.mkdtemp(prefix="c13i_")
+            td = common.mkdtemp(prefix="c13i_")
             os.chdir(td)
             for fn, content in files.items():
                 _write(fn, content)
